@@ -204,6 +204,9 @@ def table():
         m = json.load(open(mp))
         own = m["checks"].get(m["property"], {})
         others = [p for p, c in sorted(m["checks"].items()) if c.get("detected") and p != m["property"]]
+        if m.get("stale_at") and not m.get("neutralised_by"):
+            print(f"| {sid} | {m['property']} | {m.get('needs_to_manifest','')} | yes at {m['repo_head'][:7]}; the lines it changes were rewritten by later fix: commits (does not apply at {m['stale_at']}) | |")
+            continue
         if m.get("neutralised_by"):
             print(f"| {sid} | {m['property']} | {m.get('needs_to_manifest','')} | n/a: neutralised by {m['neutralised_by'].split(' ')[0]} | |")
             continue
